@@ -21,7 +21,7 @@ from .gen_tables import gen_column, diff_frames, canon_cell, canon_series
 ASSUMPTIONS = ["text round trip of float / timestamp partition values (repr, isoformat, pandas parsing) is outside the Lean model: exercised here",
                "pandas groupby(sort=True) orders groups by key"]
 
-PK = ["int", "int_neg", "float", "bool", "dt", "dt_sub", "str", "str_num", "cat", "int_null", "int_big"]
+PK = ["int", "int_neg", "float", "bool", "dt", "dt_sub", "str", "str_num", "cat", "int_null", "int_big", "int_bigneg", "cat_num"]
 
 
 def part_col(rng, kind, n):
@@ -29,6 +29,11 @@ def part_col(rng, kind, n):
         return pd.Series(np.array([rng.choice([0, 1, 7, 12]) for _ in range(n)], dtype="int64"))
     if kind == "int_big":      # adjacent keys beyond the exact range of a double
         return pd.Series(np.array([rng.choice([2 ** 53, 2 ** 53 + 1, 2 ** 62 + 3, 5]) for _ in range(n)], dtype="int64"))
+    if kind == "int_bigneg":   # negative keys, adjacent beyond the exact range of a double (signed text in drill directories)
+        return pd.Series(np.array([rng.choice([-(2 ** 53) - 1, -(2 ** 53), -4, 5]) for _ in range(n)], dtype="int64"))
+    if kind == "cat_num":      # categorical TEXT labels that look like numbers / booleans / dates
+        cats = ["1", "2", "10", "0.5", "True", "99"]
+        return pd.Series(pd.Categorical([rng.choice(cats[:5]) for _ in range(n)], categories=cats))
     if kind == "int_neg":
         return pd.Series(np.array([rng.choice([-3, 0, 5]) for _ in range(n)], dtype="int32"))
     if kind == "float":
@@ -59,7 +64,7 @@ def run(ctx, report):
     report.rule = ("frames with 1..3 partition columns over int/float/bool/datetime/text/numeric-looking text/categorical/nullable keys, all "
                    "row_group_offsets, hive and drill, value columns of C01 dtypes; non-trivial = >=2 distinct key tuples; distinct by "
                    "(scheme, key kinds, offsets)")
-    nds = 16 if ctx.quick else 150
+    nds = 18 if ctx.quick else 150
     reqs = []
     for d in range(nds):
         scheme = "hive" if d % 3 != 2 else "drill"
@@ -69,10 +74,10 @@ def run(ctx, report):
             kinds = [PK[d]] + kinds[1:]
         elif d == len(PK):
             kinds, scheme = ["int", "int", "str_num"], "hive"      # the same value text under several partition columns
-        if scheme == "drill" and d < len(PK) and PK[d] not in ("int", "int_neg", "bool", "str", "cat"):
+        if scheme == "drill" and d < len(PK) and PK[d] not in ("int", "int_neg", "bool", "str", "cat", "int_bigneg"):
             scheme = "hive"          # every key kind is exercised at least once (drill only carries plain keys)
         if scheme == "drill":
-            kinds = [k for k in kinds if k in ("int", "int_neg", "bool", "str", "cat")] or ["int"]
+            kinds = [k for k in kinds if k in ("int", "int_neg", "bool", "str", "cat", "int_bigneg")] or ["int"]
         n = rng.choice([1, 6, 15, 30])
         if d <= len(PK):
             n = max(n, 6)       # the directed datasets hold several keys
@@ -87,7 +92,7 @@ def run(ctx, report):
         pool = ["trade-year", "geo.region", "unit price", "größe", "a_b1"] if fancy else []
         for j, k in enumerate(kinds):
             nm = f"p{j}" if not fancy else rng.choice(pool) + str(j)
-            df[nm] = part_col(rng, k, n).values if k != "cat" else part_col(rng, k, n)
+            df[nm] = part_col(rng, k, n).values if k not in ("cat", "cat_num") else part_col(rng, k, n)
             pnames.append(nm)
         offs = rng.choice([None, [0], [0, n // 2] if n > 1 else [0], 4, 7])
         path = os.path.join(ctx.workdir("c08"), f"d{d}")
